@@ -16,7 +16,8 @@ TECHNIQUE = ('generated two-transaction schedules on a mini-ZODB: a Hypothesis-g
              'enumeration of duels on one leaf: every subset (size 1..2) of ten leaf-targeted primitives (delete / '
              'replace the first, a middle, the last key; insert right before the first, right after the first, '
              'after the last key; empty the leaf) on one side against every single primitive (thorough: also ten '
-             'pairs) on the other, on every leaf of small stored trees, both commit orders, both implementations')
+             'pairs) on the other, on every leaf of small stored trees, both commit orders, both implementations; '
+             'a third of the transactions (one side of every duel) run cold: the cache is swept before every call')
 RULE = ('a case is (configuration, base fill, thinning, transaction A, transaction B, commit order).  '
         'Non-trivial: both transactions changed something and conflict resolution or a read-dependency '
         'check actually ran (the second committer had a stale object).  Distinct = distinct case JSON.')
